@@ -376,7 +376,9 @@ def c10_cases(seed, tier):
     return cases
 
 
-ILL = ['"str"', "1.5", "1979-05-27", "true", "[1, 2]", "{ a = 1 }", "-0", "0x10", "1_000", "+5", "9223372036854775808", "nan", '""']
+ILL = ['"str"', "1.5", "1979-05-27", "true", "[1, 2]", "{ a = 1 }", "-0", "0x10", "1_000", "+5", "9223372036854775808", "nan", '""',
+       # valid TOML integers of absurd size (loops and shifts that depend on the value), and around the 8/16/32-bit edges
+       "9223372036854775807", "-9223372036854775808", "0x7000000000000000", "4294967296", "-2147483649", "65536"]
 AFIELDS = ["cc", "cc_negative", "note", "note_negative", "channel_offset", "channel_offset_negative", "action", "action_negative",
            "flip_axis", "deadzone_at_center", "type"]
 
